@@ -202,7 +202,7 @@ def gen_op15(ch, rng, run):
         k = rng.choice(['CT', 'CC', 'CD', 'CP', 'CE', 'CA', 'CR'])
         if k in ('CT', 'CC', 'CD'): return (k, doc, frag())
         if k == 'CP': return (k, doc, name(), frag())
-        if k == 'CR': return (k, doc, rng.choice(['amp', 'lt', 'e', 'nope', 'quot']))
+        if k == 'CR': return (k, doc, rng.choice(['amp', 'lt', 'e', 'nope', 'quot', 'a;b', '#65', 'amp;x', '#x41;zz', 'e ']))
         return (k, doc, name())
     if x < 0.70:
         els = [h for h in ch.hs if N[h].kind == 'el']
@@ -502,6 +502,8 @@ CORPUS = [
     (['<r>t</r>'], [('CP', 0, 'xml-stylesheet', "href='a.css'"), ('IB', 0, 3, 1)]),
     (['<r/>'], [('CP', 0, 'xmlx', 'd'), ('IB', 0, 2, 1), ('CC', 0, 'c'), ('IB', 0, 3, 2)]),
     (['<!--c--><r/>'], [('CP', 0, 'xml-model', ''), ('IB', 0, 3, 1), ('CP', 0, 'XML-x', 'v'), ('IB', 0, 4, 3)]),
+    # names that are no Name but let the reference production succeed on a prefix (D64, repaired 37c72ae)
+    (['<r/>'], [('CR', 0, 'a;b'), ('CR', 0, '#65'), ('CR', 0, 'amp;x'), ('CR', 0, '#x41;zz'), ('CR', 0, 'amp'), ('CR', 0, 'nope')]),
     # entity references created through the API and attached where the entity may not be referred to (finding C15-ENTREF-UNCHECKED)
     (['<!DOCTYPE r [<!NOTATION n SYSTEM "x"><!ENTITY u SYSTEM "f" NDATA n><!ENTITY a "&a;"><!ENTITY b "<x">]><r/>'], [('CR', 0, 'u'), ('AC', 2, 3), ('CR', 0, 'a'), ('AC', 2, 4), ('CR', 0, 'b'), ('AC', 2, 5)]),
     (['<!DOCTYPE r [<!ENTITY x SYSTEM "g"><!ENTITY l "&#60;">]><r k="v"/>'], [('CR', 0, 'x'), ('CR', 0, 'l'), ('AC', 3, 7), ('AC', 3, 8)]),
